@@ -47,6 +47,7 @@ const (
 	oWildSlots                  // delete-slot values are arbitrary int32 (negative, extreme, duplicates)
 	oStalePods                  // a pod may exist on the API server without being in the informer cache yet
 	oDeleteGone                 // a pod delete may find the pod already gone (stale cache): NotFound
+	oNoHistory                  // revisionHistoryLimit 0: every revision that is not live is trimmed at once
 )
 
 type vPodInfo struct {
@@ -113,6 +114,9 @@ func vBuildSnap(N, R, K, opts int) *vSnap {
 	w := s.w
 	s.r = int32(s.base) + int32(sym.IntIn("r", 0, R))
 	set := vNewSet(s.r)
+	if opts&oNoHistory != 0 {
+		*set.Spec.RevisionHistoryLimit = 0
+	}
 	// delete slots: values anywhere in the universe (below, inside, above the range)
 	k := sym.Pick("k", K+1)
 	for i := 0; i < k; i++ {
@@ -239,7 +243,7 @@ func vBuildSnap(N, R, K, opts int) *vSnap {
 		if opts&oLeanPods != 0 {
 			pi.phase, pi.ready = string(v1.PodRunning), string(v1.ConditionTrue)
 		} else {
-			pi.phase = sym.Str("phase", string(v1.PodPending), string(v1.PodRunning), string(v1.PodSucceeded), string(v1.PodFailed))
+			pi.phase = sym.Str("phase", string(v1.PodPending), string(v1.PodRunning), string(v1.PodSucceeded), string(v1.PodFailed), string(v1.PodUnknown))
 			pi.ready = sym.Str("ready", string(v1.ConditionTrue), string(v1.ConditionFalse))
 		}
 		pod.Status.Phase = v1.PodPhase(pi.phase)
@@ -618,6 +622,15 @@ func (s *vSnap) monC12(err error) {
 			} else {
 				sym.Assert(last.CurrentReplicas == upd, "C12", "after completion currentReplicas counts the updated pods")
 			}
+		} else if len(s.w.apiSets) == 1 {
+			// nothing at all was written: the status left on the server must already be the census
+			// (a status that differs from the census in any counter has to be rewritten)
+			st := s.w.apiSets[0].Status
+			sym.Cover("quiescent reconcile without a status write")
+			sym.Assert(st.Replicas == total, "C12", "a status left unwritten is a census: replicas")
+			sym.Assert(st.ReadyReplicas == ready, "C12", "a status left unwritten is a census: readyReplicas")
+			sym.Assert(st.UpdatedReplicas == upd, "C12", "a status left unwritten is a census: updatedReplicas")
+			sym.Assert(st.CurrentReplicas == cur, "C12", "a status left unwritten is a census: currentReplicas")
 		}
 	}
 }
